@@ -54,6 +54,8 @@ def run(ctx, rep):
     r3(ctx, prog, ev, rep)
     r4(ctx, prog, rep)
     r5(prog, ev, rep)
+    from rules import c11
+    c11.shared_work_rule(prog, ev, rep, "C08-R6")
 
 
 def reach_tops(prog):
